@@ -8,6 +8,7 @@ import DaskModel.Model.Contraction
 import DaskModel.Model.ArrayExpr
 import DaskModel.Model.Moment
 import DaskModel.Model.ArgNd
+import DaskModel.Model.TsqrPlanIO
 open Dask
 
 namespace ReduceDriver
@@ -534,5 +535,6 @@ def table : List (String × Handler) := [
   ("rnghist", ReduceDriver.hRngHist), ("rshist", ReduceDriver.hRsHist),
   ("contract", ReduceDriver.hContract), ("blocksumover", ReduceDriver.hBlockSumOver), ("stackgroups", ReduceDriver.hStackGroups), ("cumsumblocks", ReduceDriver.hCumsumBlocks),
   ("aeeval", ReduceDriver.hAeEval), ("aestep", ReduceDriver.hAeStep)]
+  ++ Dask.TsqrPlanIO.handlers
 
 def main : IO Unit := runDriver table
